@@ -1,7 +1,7 @@
 """Shared recognisers for the rule tables."""
 from ..interp import interp, cinfo, fmt_term
 from ..terms import (versionless, is_call, call_name, param_path, rooted_at_param, elem_of, elem_value_of,
-                     as_item, iter_source, iter_adaptors, LOSSY_ADAPTORS, subterms, closure_bindings, subst, phi_alts, drop_lv)
+                     as_item, iter_source, iter_adaptors, LOSSY_ADAPTORS, subterms, closure_bindings, subst, phi_alts, drop_lv, value_path)
 from ..summaries import call_effects, effects, loc_target, Effect
 from ..ordset import Evaluator, Reach, TOTAL, PARTIAL, LT, EQ, GT, NONE
 
